@@ -12,9 +12,9 @@ func init() {
 	register(&propertyDef{
 		id:    "C04",
 		title: "a step never executes if a prerequisite failed, it is disabled, or it is stopped first",
-		rules: []ruleFunc{c04R0, c04R1, c04R2, c04R3, c04R4, c04R5, c04R6},
+		rules: []ruleFunc{c04R0, c04R1, c04R2, c04R3, c04R4, c04R5, c04R6, c04R7},
 		decided: "failed DAG nodes are never given input (R0 = C03.R1); plugin code is executed at exactly one call site, inside the goroutine started by startStage (R1); on every explored path of the step goroutine that launches the plugin, the enable input was received with value true and the run input was received first, " +
-			"and the loop step processes items only after receiving them (R2); the input channels have a single producer, ProvideStageInput (R3); a stop condition that is neither absent nor false cancels the step (R4); the step context is examined between the receipt of the run input and the launch (R5); a disabled step completes with disabled.output and never launches (R6).",
+			"and the loop step processes items only after receiving them (R2); the input channels have a single producer, ProvideStageInput (R3); a stop condition that is neither absent nor false cancels the step (R4); the step context is examined between the receipt of the run input and the launch (R5); a disabled step completes with disabled.output and never launches (R6); the enable value handed to the step goroutine is true only for an absent `enabled` input or the boolean true (R7).",
 		notDecided: "that the DAG marks dependants of a failed step unresolvable (dgraph); timing; what a plugin does after it received the cancel signal.",
 	})
 }
@@ -296,7 +296,7 @@ func (c *Ctx) onlyViaStopGuards(fn *ssa.Function, ret ssa.Instruction, isCancel 
 // C04.R5 no start after cancellation.
 func c04R5(c *Ctx) {
 	const rule = "C04.R5"
-	c.explain("C04.R5 on every explored path of the plugin step goroutine, between the last receive of the run input and the `go` that executes the plugin, the step context is examined (a select with a ctx.Done() case, or ctx.Err())")
+	c.explain("C04.R5 on every explored path of the plugin step goroutine, between the last receive of the run input and the `go` that executes the plugin, the step context is examined (a select with a ctx.Done() case, or ctx.Err()), and no call into the ATP client (schema handshake, i.e. network I/O of unbounded duration) lies between that examination and the launch")
 	ts := c.stepTraces("plugin")
 	if len(ts.undecided) > 0 || len(ts.traces) == 0 {
 		c.undecided(rule, "explore:plugin", "-", "not explored exhaustively: "+strings.Join(ts.undecided, "; "))
@@ -304,6 +304,7 @@ func c04R5(c *Ctx) {
 	}
 	nGo := 0
 	var bad []pevent
+	ioAfter := ""
 	for _, t := range ts.traces {
 		gi := hasEvent(t, "go", "(*plugin.runningStep).startStage$")
 		if gi < 0 {
@@ -320,6 +321,11 @@ func c04R5(c *Ctx) {
 			if e.Kind == "select" && len(e.Args) > 1 && strings.Contains(e.Args[1], "<-ctx.Done()") {
 				checked = true
 			}
+			// communication with the plugin (schema handshake ...) after the examination re-opens the window
+			if e.Kind == "call" && checked {
+				checked = false
+				ioAfter = e.Args[0]
+			}
 		}
 		if !checked && bad == nil {
 			bad = t
@@ -330,7 +336,7 @@ func c04R5(c *Ctx) {
 		path = []string{traceString(bad)}
 	}
 	c.verdict(bad == nil && nGo > 0, rule, "ctx-checked-before-launch:plugin", c.pos(ts.root.Pos()), fmt.Sprintf("the step context is examined between the run input and the launch on all %d launching paths", nGo),
-		"the plugin is launched without looking at the step context after the run input was received: a stop condition that fired before the step got here (the earlier selects choose at random when both the input and ctx.Done() are ready) does not prevent the start", path...)
+		"the plugin is launched without looking at the step context after the run input was received and after the last exchange with the plugin ("+ioAfter+"): a stop condition that fired before the step got here (the earlier selects choose at random when both the input and ctx.Done() are ready), or during the handshake, does not prevent the start", path...)
 }
 
 // C04.R6 a disabled step reports `disabled`.
@@ -375,4 +381,62 @@ func c04R6(c *Ctx) {
 		}
 		c.verdict(bad == nil && n > 0, rule, "disabled-reports:"+prov, c.pos(ts.root.Pos()), fmt.Sprintf("all %d disabled paths complete with disabled.output and launch nothing", n), "a disabled step does not report its disabled output, or still launches", path...)
 	}
+}
+
+// C04.R7 the enable predicate.
+func c04R7(c *Ctx) {
+	const rule = "C04.R7"
+	c.explain("C04.R7 in every provideEnablingInput the value sent on enabledInput is `input[enabled] == nil || input[enabled] == true`: the constant true only on the edge where the input is nil, otherwise the comparison of the input with the boolean true (any other value — including the strings that the bool schema accepts for false — disables)")
+	n := 0
+	for _, fn := range c.inPkgs(c.runFns(), pkgPlugin, pkgForeach) {
+		for _, op := range c.chanOps(fn) {
+			if op.Kind != "send" || op.Ch.Field == nil || op.Ch.Field.Name() != "enabledInput" {
+				continue
+			}
+			n++
+			key := "enable-predicate:" + c.fnName(fn)
+			send := op.In.(*ssa.Send)
+			isEnabledLookup := func(v ssa.Value) bool {
+				return derivesFrom(v, func(x ssa.Value) bool {
+					l, ok := x.(*ssa.Lookup)
+					if !ok {
+						return false
+					}
+					s, isC := constString(l.Index)
+					return isC && s == "enabled"
+				})
+			}
+			isCmp := func(v ssa.Value, wantNil bool) bool {
+				b, ok := v.(*ssa.BinOp)
+				if !ok || b.Op != token.EQL || !isEnabledLookup(b.X) {
+					return false
+				}
+				if wantNil {
+					return isNilConst(b.Y)
+				}
+				return derivesFrom(b.Y, func(x ssa.Value) bool { bv, isB := constBool(x); return isB && bv })
+			}
+			okc := false
+			why := "the sent value is not the predicate `== nil || == true`"
+			if phi, isPhi := send.X.(*ssa.Phi); isPhi && len(phi.Edges) == 2 {
+				var constEdgeOK, cmpEdgeOK bool
+				for i, e := range phi.Edges {
+					pred := phi.Block().Preds[i]
+					if bv, isB := constBool(e); isB {
+						// constant true, coming from the block that tested `== nil` (its true edge)
+						if ifi := blockIf(pred); bv && ifi != nil && isCmp(ifi.Cond, true) && pred.Succs[0] == phi.Block() {
+							constEdgeOK = true
+						}
+						continue
+					}
+					if isCmp(e, false) {
+						cmpEdgeOK = true
+					}
+				}
+				okc = constEdgeOK && cmpEdgeOK
+			}
+			c.verdict(okc, rule, key, c.instrPos(send), "enabled = (input is absent) or (input == true)", why+": a false condition that is not the Go boolean false (a literal `enabled: false` arrives as a string) would enable the step")
+		}
+	}
+	c.minCount(rule, "enable hand-overs", n, 2)
 }
